@@ -50,6 +50,11 @@ CONSTS = [
     # C18
     ("MAX_INLINE_KEY_LENGTH", "src/peer_id.rs", const("MAX_INLINE_KEY_LENGTH")),
     ("MULTIHASH_IDENTITY_CODE", "src/peer_id.rs", const("MULTIHASH_IDENTITY_CODE")),
+    # C19
+    ("C19_KAD_MAX_ADDRESSES", KAD + "types.rs", const("MAX_ADDRESSES")),
+    ("C19_KAD_DEFAULT_MAX_MESSAGE_SIZE", KAD + "config.rs", const("DEFAULT_MAX_MESSAGE_SIZE")),
+    ("C19_IDENTIFY_PAYLOAD_SIZE", "src/protocol/libp2p/identify.rs", const("IDENTIFY_PAYLOAD_SIZE")),
+    ("C19_BITSWAP_MAX_MESSAGE_SIZE", "src/protocol/libp2p/bitswap/config.rs", const("MAX_MESSAGE_SIZE")),
     ("PEER_ID_MULTIHASH_SIZE", "src/peer_id.rs", r"type\s+Multihash\s*=\s*multihash::Multihash<\s*(\d+)\s*>\s*;"),
     # C04
     ("BACKPRESSURE_BOUNDARY", "src/substream/mod.rs", const("BACKPRESSURE_BOUNDARY")),
